@@ -79,6 +79,21 @@ static void case_c01(const drvargs_t *a,long id){
       res_count("samples_compared",total*ch); res_metric(f0blocks?"worst_rel_error_floor0":"worst_rel_error",worst);
     }
     sp_dec_free(D);
+    if(ok){ /* the same stream through vorbisfile: the total and the delivered count are what the specification (and the granule positions) say */
+      buf_t phys; buf_init(&phys); mux_stream(&pk,(int)(id*7+1),(int)rng_below(&r,PAGE_NKINDS),(int)rng_range(&r,1,9000),rng_next(&r),&phys);
+      OggVorbis_File vf; memsrc_t ms; memsrc_init(&ms,phys.p,phys.n,1); res_eval(1);
+      int orc=ov_open_callbacks(&ms,&vf,NULL,0,memsrc_cb(&ms));
+      if(orc) res_viol("C01","vorbisfile-refuses-valid-stream","ov_open_callbacks %d: %s [%s]",orc,desc,sp_profile_name(profile));
+      else {
+        ogg_int64_t want=pk.v[pk.n-1].granulepos, tot=ov_pcm_total(&vf,-1); long cnt=0,g; float **pcm; int bs;
+        while((g=ov_read_float(&vf,&pcm,4096,&bs))>0) cnt+=g;
+        if(tot!=want) res_viol("C01","vorbisfile-total-differs","ov_pcm_total %lld, specification/granule positions %lld: %s [%s]",(long long)tot,(long long)want,desc,sp_profile_name(profile));
+        if(g<0||cnt!=want) res_viol("C01","vorbisfile-count-differs","linear read delivered %ld samples (last return %ld), specification %lld: %s [%s]",cnt,g,(long long)want,desc,sp_profile_name(profile));
+        if(cnt!=total) res_viol("C01","vorbisfile-vs-packet-count","vorbisfile %ld samples, packet API %ld",cnt,total);
+        ov_clear(&vf); res_count("vorbisfile_totals_checked",1);
+      }
+      buf_free(&phys);
+    }
   }
   ldec_close(&L);
 out:
